@@ -173,6 +173,10 @@ class CustomColorChecker(ColorChecker):
         swatch_size = 50
 
         # Extract colors of all swatches in RGB by taking averages
+        # NOTE: k-means with random centers draws from OpenCV's global random generator;
+        # fix its state such that the correction is a function of the image only (and a
+        # saved and reloaded correction reproduces the output).
+        cv2.setRNGSeed(0)
         swatches = np.zeros((4, 6, 3), dtype=np.float32)
         for row in range(4):
             for col in range(6):
